@@ -4,6 +4,7 @@ From Coq Require Import ZArith NArith List Bool Reals.
 From Flocq Require Import Core.
 From NP Require Import Gen.GenConsts Model.PyBase Model.D128 Model.TileCodec Model.DataList Model.CellRecord
   Proofs.A1P Proofs.D128P Proofs.TileCodecP Proofs.DataListP Proofs.CellRecordP Proofs.FloatConv.
+From NP Require Import Model.Digits Proofs.DigitsP.
 Import ListNotations.
 
 (* --- numbers: the 16-byte decimal layout --- *)
@@ -32,6 +33,12 @@ Theorem number_roundtrip :
   forall x, decode_num F float_of_dec (encode_num F repr_dec x) = x.
 Proof. exact number_roundtrip_lemma. Qed.
 Print Assumptions number_roundtrip.
+
+(* Table.write rounds floats to 15 significant digits (sigfig on the repr digits, Model/Digits.v, tied to the code by
+   C13's streams): a value that already has at most 15 significant digits is stored from its own digits *)
+Theorem write_rounding_identity : forall mant ex : Z, (Digits.ndig mant <= 15)%Z -> Digits.round_sig 15 mant ex = (mant, ex).
+Proof. exact (DigitsP.round_sig_small 15). Qed.
+Print Assumptions write_rounding_identity.
 
 Theorem bias_is_source_constant : GenConsts.DECIMAL128_BIAS = BIAS.
 Proof. reflexivity. Qed.
